@@ -16,6 +16,7 @@ import EV.Proofs.Text
 import EV.Proofs.Serde
 import EV.Proofs.SerdeUtils
 import EV.Proofs.PsetWireTop
+import EV.Proofs.SerdeDerive
 namespace EV.Props.C20
 open EV EV.Text EV.Serde
 
@@ -352,5 +353,204 @@ example : Tx.ok allValid ⟨2, 0, [], [⟨.null, .explicit 1, .null, [0x51], ⟨
   simp [Tx.ok, TxOut.ok, Asset.ok, Value.ok, Nonce.ok, TxOutWitness.ok, okOptProof]
 example : Value.ofS allValid true (lossy .json (Value.toS true (.explicit 5))) = .ok (.explicit 5) :=
   serde_roundtrip_value allValid true .json (fun _ => rfl) _ (by simp [Value.ok])
+
+
+/-! ## (c) derived serde impls (`#[derive(Serialize, Deserialize)]`): EV.Model.SerdeDerive
+
+  The model is an interpreter of the table `EV.Gen.serdeDerive`, regenerated from /repo on every run
+  (tools/extract.d/c20_derive.py): every derived item with its fields in order, their serde keys, types and hooks.
+  Values are the universe `DVal`; `DerivedOk P D nm v` says that `v` is a value of the derived item `nm`.
+  Types that are not derived in /repo are leaf codecs: /repo's own hand-written impls (concrete, laws proved from
+  part (b)) and the third-party ones `X : Deps` (`bitcoin::PublicKey`, `secp256k1::XOnlyPublicKey`,
+  `schnorr::Signature`, `bip32::{Fingerprint, DerivationPath, Xpub}`, `bitcoin::Transaction`), which are PARAMETERS:
+  `DepsLawful X D h f` assumes their round trip. -/
+
+open EV.Gen
+
+/-- GENERIC: a derived struct (field keys pairwise distinct) read back by `visit_map` — by field NAME, in the
+    format's view of `serialize_struct` (or of `serialize_map` when a field is flattened) — round-trips as soon as
+    each field does -/
+theorem derive_struct_roundtrip (rcS : RecS) (rcD : RecD) (nm : String) (fields : List SerdeField) (flat h : Bool) (f : Fmt)
+    (vs : List DVal) (hnd : (fields.map (·.key)).Nodup) (hp : pairsOk rcS rcD h f fields vs) :
+    structOfS rcD fields flat h (lossy f (structToS rcS nm fields flat h vs)) = .ok (.record vs) :=
+  structOfS_rt rcS rcD nm fields flat h f vs hnd hp
+
+/-- GENERIC: the same struct read back by `visit_seq` — by POSITION, from a format that writes a struct as the
+    sequence of its field values -/
+theorem derive_struct_roundtrip_seq (rcS : RecS) (rcD : RecD) (fields : List SerdeField) (h : Bool) (f : Fmt)
+    (vs : List DVal) (hp : pairsOk rcS rcD h f fields vs) :
+    structOfS rcD fields false h (.seq ((zipFields rcS h fields vs).map fun e => lossy f e.2)) = .ok (.record vs) :=
+  structOfS_seq_rt rcS rcD fields h f vs hp
+
+/-- GENERIC: a field round-trips when the values of its type do, whatever `serde(with = …)` hook it carries
+    (`hex_bytes`, the three `btreemap_*` helpers, `serde_fallback_locktime`, `serde_parity`) -/
+theorem derive_field_roundtrip (rcS : RecS) (rcD : RecD) (wt : SerdeTy → DVal → Prop) (h : Bool) (f : Fmt)
+    (hrec : ∀ t x, wt t x → rcD t h (lossy f (rcS t h x)) = .ok x) (fld : SerdeField) (v : DVal) (hw : fieldWT wt fld v) :
+    fieldOfS rcD fld h (lossy f (fieldToS rcS fld h v)) = .ok v := fieldOfS_rt rcS rcD wt h f hrec fld v hw
+
+/-- GENERIC: `BTreeMap<K, V>` (`serialize_map`, read back by the `visit_map` loop): a map with pairwise distinct
+    keys round-trips when its keys and values do -/
+theorem derive_btreemap_roundtrip (f : Fmt) (tk tv : DVal → SVal) (pk pv : SVal → Res DVal) (m : List (DVal × DVal))
+    (hd : KeysDistinct m) (hk : ∀ e ∈ m, pk (lossy f (tk e.1)) = .ok e.1) (hv : ∀ e ∈ m, pv (lossy f (tv e.2)) = .ok e.2) :
+    dCollectMap pk pv (m.map fun e => (lossy f (tk e.1), lossy f (tv e.2))) [] = .ok m := by
+  simpa using dCollectMap_rt f tk tv pk pv m [] (by simpa using hd) hk hv
+
+/-- THE GENERIC THEOREM: over ANY table whose structs have distinct field keys and whose enums have distinct variant
+    names, every well-typed value of every type (integers, `bool`, `Option`, `Vec`, `[u8; N]`, tuples, `BTreeMap`,
+    structs incl. hooks and flattening, newtype structs, enums) round-trips through the format's view, given the laws
+    of the leaf codecs. `Option<T>` needs `T` never to serialize to null (`nonNullTy`, part of well-typedness). -/
+theorem derive_roundtrip (env : Env) (tbl : Table) (okLeaf : String → DVal → Prop) (h : Bool) (f : Fmt)
+    (hc : compatible h f) (htbl : tableOk tbl = true)
+    (hleaf : ∀ nm L, tbl.lookup nm = Option.none → env nm = some L → LeafLaw L (okLeaf nm) h f)
+    (henv : ∀ nm v, tbl.lookup nm = Option.none → okLeaf nm v → ∃ L, env nm = some L)
+    (n : Nat) (ty : SerdeTy) (v : DVal) (hv : dWT okLeaf tbl n ty v) :
+    dOfS env tbl n ty h (lossy f (dToS env tbl n ty h v)) = .ok v :=
+  dRoundtrip env tbl okLeaf h f hc htbl hleaf henv n ty v hv
+
+/-- /repo's table satisfies the side condition -/
+theorem derive_table_ok : tableOk serdeDerive = true := serdeDerive_tableOk
+
+/-- every derived item of /repo -/
+theorem serde_roundtrip_derived (P : Prims) (X : Deps) (D : DepsOk) (h : Bool) (f : Fmt) (hc : compatible h f)
+    (hX : DepsLawful X D h f) (nm : String) (v : DVal) (hv : DerivedOk P D nm v) :
+    deriveOfS P X nm h (lossy f (deriveToS P X nm h v)) = .ok v := derived_rt P X D h f hc hX nm v hv
+
+/-- no third-party value at all (used where a derived item does not reach one) -/
+def noDeps : DepsOk := ⟨fun _ => False, fun _ => False, fun _ => False, fun _ => False, fun _ => False, fun _ => False, fun _ => False⟩
+
+theorem noDeps_lawful (X : Deps) (h : Bool) (f : Fmt) : DepsLawful X noDeps h f :=
+  ⟨⟨fun _ hv => hv.elim, fun _ hv => hv.elim⟩, ⟨fun _ hv => hv.elim, fun _ hv => hv.elim⟩, ⟨fun _ hv => hv.elim, fun _ hv => hv.elim⟩,
+   ⟨fun _ hv => hv.elim, fun _ hv => hv.elim⟩, ⟨fun _ hv => hv.elim, fun _ hv => hv.elim⟩, ⟨fun _ hv => hv.elim, fun _ hv => hv.elim⟩,
+   ⟨fun _ hv => hv.elim, fun _ hv => hv.elim⟩⟩
+
+/-- `TxOutSecrets` (the property's "output secret"): UNCONDITIONAL — it reaches no third-party impl -/
+theorem serde_roundtrip_txoutsecrets (P : Prims) (X : Deps) (h : Bool) (f : Fmt) (hc : compatible h f) (v : DVal)
+    (hv : DerivedOk P noDeps "TxOutSecrets" v) :
+    deriveOfS P X "TxOutSecrets" h (lossy f (deriveToS P X "TxOutSecrets" h v)) = .ok v :=
+  derived_rt P X noDeps h f hc (noDeps_lawful X h f) _ v hv
+
+example (P : Prims) (hz : P.tweak (List.replicate 32 0) = true) :
+    DerivedOk P noDeps "TxOutSecrets"
+      (.record [.bytes (List.replicate 32 1), .bytes (List.replicate 32 0), .nat 5, .bytes (List.replicate 32 0)]) := by
+  refine dWT_struct (stdOkLeaf P noDeps) serdeDerive 23 "TxOutSecrets" _ _ _ rfl ?_
+  refine ⟨?_, ?_, ?_, ?_, trivial⟩
+  · exact dWT_leaf (stdOkLeaf P noDeps) serdeDerive 22 "AssetId" _ rfl ⟨_, rfl, rfl⟩
+  · exact dWT_leaf (stdOkLeaf P noDeps) serdeDerive 22 "AssetBlindingFactor" _ rfl ⟨_, rfl, rfl, hz⟩
+  · exact ⟨5, rfl, by decide⟩
+  · exact dWT_leaf (stdOkLeaf P noDeps) serdeDerive 22 "ValueBlindingFactor" _ rfl ⟨_, rfl, rfl, hz⟩
+
+/-- `pset::raw::{Key, Pair, ProprietaryKey}`: unconditional as well -/
+theorem serde_roundtrip_pset_raw (P : Prims) (X : Deps) (h : Bool) (f : Fmt) (hc : compatible h f) (nm : String)
+    (_ : nm = "Key" ∨ nm = "Pair" ∨ nm = "ProprietaryKey") (v : DVal) (hv : DerivedOk P noDeps nm v) :
+    deriveOfS P X nm h (lossy f (deriveToS P X nm h v)) = .ok v :=
+  derived_rt P X noDeps h f hc (noDeps_lawful X h f) nm v hv
+
+/-- `pset::Input` (50 fields: optional transactions / outputs / scripts / proofs / commitments, the
+    `btreemap_byte_values` / `btreemap_as_seq` / `btreemap_as_seq_byte_values` maps, taproot data) -/
+theorem serde_roundtrip_pset_input (P : Prims) (X : Deps) (D : DepsOk) (h : Bool) (f : Fmt) (hc : compatible h f)
+    (hX : DepsLawful X D h f) (v : DVal) (hv : DerivedOk P D "Input" v) :
+    deriveOfS P X "Input" h (lossy f (deriveToS P X "Input" h v)) = .ok v := derived_rt P X D h f hc hX _ v hv
+
+theorem serde_roundtrip_pset_output (P : Prims) (X : Deps) (D : DepsOk) (h : Bool) (f : Fmt) (hc : compatible h f)
+    (hX : DepsLawful X D h f) (v : DVal) (hv : DerivedOk P D "Output" v) :
+    deriveOfS P X "Output" h (lossy f (deriveToS P X "Output" h v)) = .ok v := derived_rt P X D h f hc hX _ v hv
+
+/-- `pset::Global` with the flattened `TxData` (`tx_version` rename, `serde_fallback_locktime` hook): written as a
+    map, read back by `visit_map` only -/
+theorem serde_roundtrip_pset_global (P : Prims) (X : Deps) (D : DepsOk) (h : Bool) (f : Fmt) (hc : compatible h f)
+    (hX : DepsLawful X D h f) (v : DVal) (hv : DerivedOk P D "Global" v) :
+    deriveOfS P X "Global" h (lossy f (deriveToS P X "Global" h v)) = .ok v := derived_rt P X D h f hc hX _ v hv
+
+/-- `TapTree` (newtype of `TaprootBuilder` → `Vec<Option<NodeInfo>>` → `LeafInfo` → `TaprootMerkleBranch`),
+    `ControlBlock` (with the `serde_parity` hook), `SchnorrSig` -/
+theorem serde_roundtrip_taproot_items (P : Prims) (X : Deps) (D : DepsOk) (h : Bool) (f : Fmt) (hc : compatible h f)
+    (hX : DepsLawful X D h f) (nm : String) (_ : nm ∈ ["TapTree", "TaprootBuilder", "NodeInfo", "LeafInfo",
+      "TaprootMerkleBranch", "ControlBlock", "LeafVersion", "SchnorrSig"]) (v : DVal) (hv : DerivedOk P D nm v) :
+    deriveOfS P X nm h (lossy f (deriveToS P X nm h v)) = .ok v := derived_rt P X D h f hc hX nm v hv
+
+/-- THE PSET (`PartiallySignedTransaction { global, inputs, outputs }`) -/
+theorem serde_roundtrip_pset (P : Prims) (X : Deps) (D : DepsOk) (h : Bool) (f : Fmt) (hc : compatible h f)
+    (hX : DepsLawful X D h f) (v : DVal) (hv : DerivedOk P D "PartiallySignedTransaction" v) :
+    deriveOfS P X "PartiallySignedTransaction" h (lossy f (deriveToS P X "PartiallySignedTransaction" h v)) = .ok v :=
+  derived_rt P X D h f hc hX _ v hv
+
+/-- the empty PSET (`PartiallySignedTransaction::new_v2()`) is a value, for any `P`, `D` -/
+example (P : Prims) (D : DepsOk) : DerivedOk P D "PartiallySignedTransaction"
+    (.record [.record [.nat 2, .none, .nat 0, .nat 0, .none, .nat 2, .map [], .list [], .none, .map [], .map []], .list [], .list []]) := by
+  refine dWT_struct (stdOkLeaf P D) serdeDerive 23 "PartiallySignedTransaction" _ _ _ rfl ?_
+  refine ⟨?_, ?_, ?_, trivial⟩
+  · refine dWT_struct (stdOkLeaf P D) serdeDerive 22 "Global" _ _ _ rfl ?_
+    refine ⟨?_, ?_, ?_, ?_, ?_, ?_, ?_, ?_, ?_, ?_, ?_, trivial⟩
+    · exact ⟨2, rfl, by decide⟩
+    · exact Or.inl rfl
+    · exact ⟨0, rfl, by decide⟩
+    · exact ⟨0, rfl, by decide⟩
+    · exact Or.inl rfl
+    · exact ⟨2, rfl, by decide⟩
+    · exact ⟨[], rfl, by simp, List.Pairwise.nil⟩
+    · exact ⟨[], rfl, by simp⟩
+    · exact Or.inl rfl
+    · exact ⟨by simp, by simp [allBytes], List.Pairwise.nil⟩
+    · exact ⟨by simp, by simp [allBytes], List.Pairwise.nil⟩
+  · exact ⟨[], rfl, by simp⟩
+  · exact ⟨[], rfl, by simp⟩
+
+/-- `DepsLawful` is satisfiable (e.g. when no third-party value occurs) -/
+example (X : Deps) (h : Bool) (f : Fmt) : DepsLawful X noDeps h f := noDeps_lawful X h f
+
+/-- WHICH MAP KEYS SURVIVE JSON: a `BTreeMap` written with `serialize_map` into a human-readable format needs keys
+    that serialize to strings. In /repo's table every such key type (maps of fields without a hook, and of
+    `btreemap_byte_values` fields) is one of `Xpub`, `bitcoin::PublicKey`, the four preimage hash types … -/
+theorem derive_json_map_keys_are_string_leaves :
+    ∀ k ∈ humanMapKeys serdeDerive, ∃ nm ∈ stringKeyLeaves, k = .named nm := humanMapKeys_are_stringKeyLeaves
+
+/-- … each of which is a string in the JSON view (the two third-party ones by assumption); every other key type of
+    /repo — `(XOnlyPublicKey, TapLeafHash)`, `ControlBlock`, `XOnlyPublicKey`, `raw::Key`, `ProprietaryKey`,
+    `bitcoin::PublicKey` of `bip32_derivation` — sits behind `btreemap_as_seq` / `btreemap_as_seq_byte_values`,
+    which write a sequence of pairs when human readable -/
+theorem derive_json_map_keys_are_strings (P : Prims) (X : Deps) (D : DepsOk) (hK : DepsKeysAreStrings X D) :
+    ∀ nm ∈ stringKeyLeaves, ∀ L, stdEnv P X nm = some L → ∀ v, stdOkLeaf P D nm v → ∃ s, lossy .json (L.toS true v) = .str s :=
+  stringKeyLeaf_toS_str P X D hK
+
+/-- bridges: the table-driven model agrees with the earlier type-specific models -/
+theorem derive_bridge_raw_key (P : Prims) (X : Deps) (h : Bool) (t : Nat) (k : Bytes) :
+    deriveToS P X "Key" h (.record [.nat t, .bytes k]) = RawKey.toS h ⟨t, k⟩ := derive_rawKey_bridge P X h t k
+theorem derive_bridge_proprietary_key (P : Prims) (X : Deps) (h : Bool) (p : Bytes) (t : Nat) (k : Bytes) :
+    deriveToS P X "ProprietaryKey" h (.record [.bytes p, .nat t, .bytes k]) = PropKey.toS h ⟨p, t, k⟩ :=
+  derive_propKey_bridge P X h p t k
+theorem derive_bridge_sequence (P : Prims) (X : Deps) (h : Bool) (n : Nat) :
+    deriveToS P X "Sequence" h (.nat n) = sSequence n := derive_sequence_bridge P X h n
+theorem derive_bridge_locktime (P : Prims) (X : Deps) (h : Bool) (n : Nat) :
+    deriveToS P X "LockTime" h (.variant (if n < lockTimeThreshold then 0 else 1) (.nat n)) = sLockTime n :=
+  derive_lockTime_bridge P X h n
+
+/-
+  SUMMARY. FULL STATEMENT (properties.jsonl C20, serde half): "serializing ANY transaction, input, output, block,
+  block header, dynafed parameter set, address, script, confidential commitment, blinding factor, output secret,
+  hash newtype or PSET to JSON or CBOR and deserializing it yields an equal value".
+  `serde_roundtrip_all` = the hand-written summary `serde_roundtrip_handwritten_partial` (unchanged) together with
+  EVERY derived item of /repo (`TxOutSecrets`, the PSET and all its maps, raw keys, taproot items, `Sequence`,
+  `LockTime`, `Height`, `Time`), over the token model of serde and the JSON / CBOR views.
+  ASSUMED (hypothesis `DepsLawful`): the round trip of the seven third-party impls that PSET maps embed; each is
+  transcribed in the driver and compared with the real impl (K), and its round trip is checked on the real code (S).
+  STILL OUTSIDE THE MODEL: the byte-level syntax of serde_json / serde_cbor (parsers / printers), exercised by S.
+-/
+theorem serde_roundtrip_all (P : Prims) (X : Deps) (D : DepsOk) (h : Bool) (f : Fmt) (hc : compatible h f)
+    (hX : DepsLawful X D h f) :
+    ((∀ v, Value.ok P v → Value.ofS P h (lossy f (Value.toS h v)) = .ok v) ∧
+     (∀ v, Asset.ok P v → Asset.ofS P h (lossy f (Asset.toS h v)) = .ok v) ∧
+     (∀ v, Nonce.ok P v → Nonce.ofS P h (lossy f (Nonce.toS h v)) = .ok v) ∧
+     (∀ b, BlindingFactor.ok P b → BlindingFactor.ofS P h (lossy f (BlindingFactor.toS h b)) = .ok b) ∧
+     (∀ k b, b.length = k.len → ofHash k h (lossy f (sHash k h b)) = .ok b) ∧
+     (∀ b, ofScript (lossy f (sScript b)) = .ok b) ∧
+     (∀ o, OutPoint.ok o → OutPoint.ofS h (lossy f (OutPoint.toS h o)) = .ok o) ∧
+     (∀ i, TxIn.ok P i → TxIn.ofS P h (lossy f (TxIn.toS h i)) = .ok i) ∧
+     (∀ o, TxOut.ok P o → TxOut.ofS P h (lossy f (TxOut.toS h o)) = .ok o) ∧
+     (∀ t, Tx.ok P t → Tx.ofS P h (lossy f (Tx.toS h t)) = .ok t) ∧
+     (∀ p, Params.ok p → Params.ofS h (lossy f (Params.toS h p)) = .ok p) ∧
+     (∀ b, BlockHeader.ok b → BlockHeader.ofS h (lossy f (BlockHeader.toS h b)) = .ok b) ∧
+     (∀ b, Block.ok P b → Block.ofS P h (lossy f (Block.toS h b)) = .ok b)) ∧
+    (∀ nm v, DerivedOk P D nm v → deriveOfS P X nm h (lossy f (deriveToS P X nm h v)) = .ok v) :=
+  ⟨serde_roundtrip_handwritten_partial P h f hc, fun nm v hv => derived_rt P X D h f hc hX nm v hv⟩
 
 end EV.Props.C20
